@@ -25,7 +25,7 @@ LEVEL = "exploration"
 RULE = ("scenario = one send_message call with optional cancellation token (fired at a generated instant, possibly before the call) "
         "and optional progress callback (may raise / await), + peer traffic incl. floods; non-trivial = the token fired while the request "
         "was pending, or a matching progress notification was delivered, or a flood ran during the request")
-PROBES = ["cancel_noticed_while_outgoing_stalled", "callback_raised_timeout_or_cancelled_type", "token_shared_by_second_request", "params_carried_a_stale_progress_token", "cancel_while_pending", "cancel_before_call", "response_wins_in_cancel_window", "deadline_in_cancel_window",
+PROBES = ["foreign_token_listener_raised", "cancel_noticed_while_outgoing_stalled", "callback_raised_timeout_or_cancelled_type", "token_shared_by_second_request", "params_carried_a_stale_progress_token", "cancel_while_pending", "cancel_before_call", "response_wins_in_cancel_window", "deadline_in_cancel_window",
           "cancel_exactly_on_poll_edge", "flood_during_request", "callback_raised", "callback_slept", "progress_matching_delivered",
           "progress_foreign_delivered", "cancel_after_completion"]
 TIERS = {"quick": {"runs": 25000, "wall": 45.0}, "thorough": {"runs": 1200000, "wall": 560.0}}
@@ -101,7 +101,9 @@ def generate(rng: random.Random, tier: str) -> dict:
     if wblock is None and use_token and cancel is not None and rng.random() < 0.3:
         # a second request started later with the SAME token (e.g. one token per user action covering several calls)
         follow_up = {"dt": rng.choice([0, 1, 600, 1200]), "timeout": rng.choice([0.5, 1.0])}
-    return {"v": 1, "wblock": wblock, "follow_up": follow_up, "timeout": timeout, "t0": t0, "uuid_seed": rng.getrandbits(40),
+    # other parties registered their own listeners on the token before this request (one of them may fail when the token fires)
+    listeners = [rng.choice(["ok", "raises", "raises"]) for _ in range(rng.choice([1, 2, 3]))] if (use_token and rng.random() < 0.25) else []
+    return {"v": 1, "listeners": listeners, "wblock": wblock, "follow_up": follow_up, "timeout": timeout, "t0": t0, "uuid_seed": rng.getrandbits(40),
             "mid": rng.choice([None, None, "req-1", "77"]), "mode": rng.choice(["parse_message", "model_validate"]),
             "params": rng.choice([None, {}, {"a": 1}, {"_meta": {"keep": 1}, "b": 2}, {"_meta": {"progressToken": "stale-token-from-earlier-attempt"}, "c": 3}]),
             "use_token": use_token, "cancel": cancel, "use_progress": use_progress, "cb": cb, "flood": flood, "events": events}
@@ -126,6 +128,8 @@ def systematic(tier: str):
 
 
 def simplify(scn):
+    if scn.get("listeners"):
+        c = copy.deepcopy(scn); c["listeners"] = []; yield c
     if scn.get("wblock"):
         c = copy.deepcopy(scn); c["wblock"] = None; yield c
     if scn.get("cb") and scn["cb"].get("raise_kind", "RuntimeError") != "RuntimeError":
@@ -219,6 +223,15 @@ def execute(scn: dict) -> dict:
         delivered = []
         st["delivered"] = delivered
         token = sm.CancellationToken() if scn["use_token"] else None
+        st["listener_calls"] = []
+        if token is not None:
+            for li, kind_ in enumerate(scn.get("listeners", [])):
+                def listener(li=li, kind_=kind_):
+                    st["listener_calls"].append(li)
+                    if kind_ == "raises":
+                        sim.probe("foreign_token_listener_raised")
+                        raise RuntimeError(f"listener {li} failed")
+                token.add_callback(listener)
 
         def build(ev):
             k, m = ev["kind"], ev["m"]
